@@ -17,7 +17,7 @@ SEGS_FULL = {
     '[!a]': (pat.br('[!a]'),), '@(a|b)': (ext('@', [A], [B]),), '!(a)': (ext('!', [A]),), '?(a)*': (ext('?', [A]), STAR),
     '*?': (STAR, Q), '*.h': (STAR, DOT, H), 'a*': (A, STAR), '**': (('star', 2),), '***': (('star', 3),),
     '.': (DOT,), '..': (DOT, DOT), '*(a|b)': (ext('*', [A], [B]),), '+(?)': (ext('+', [Q]),), '.?': (DOT, Q),
-    '[.]h': (pat.br('[.]'), H),
+    '[.]h': (pat.br('[.]'), H), '..a': (DOT, DOT, A), '...': (DOT, DOT, DOT),
 }
 CORE = ['a', '*', '**', '.h', '?']
 CASE_SEGS = {'A': (L('A'),), '[aA]': (pat.br('[aA]'),), 'a': (A,), '*': (STAR,), '**': (('star', 2),), 'A*': (L('A'), STAR)}
